@@ -154,7 +154,7 @@ def run(ctx):
             bump("withlen compared")
     # the proved strict decoder (Spec.decode_lang, driver C04) as a second, independent decoder
     d04 = common.build_driver("C04")
-    sa, _ = common.run_lines(d04, ["strict %d %s" % (L, wb.hex() if wb else "-") for wb, L in jobs])
+    sa, _ = common.run_lines(d04, ["strict %d %s" % (L, wb.hex() if wb else "-") for wb, L in jobs], timeout=RL_TIMEOUT)
     with ProcessPoolExecutor(common.NPROC, initializer=_init, initargs=(tj,)) as ex:
         decs = dict(zip(jkeys, ex.map(_decode, jobs, chunksize=64)))
         spec = dict(zip(jkeys, ex.map(_spec_canon, [(a, L) for a, (wb, L) in zip(sa, jobs)], chunksize=64)))
